@@ -203,7 +203,7 @@ def run_instance(inst, tier):
             raise engine.InfraError("MPCC made no controlled random call")
         if flagbox.get("capped"):
             res.count("instances_with_capped_orders")
-            res.truncated += 0
+            res.truncated += 1
         if first:
             (key, msg), choices, calls = first[0]
             res.violation(key, f"vertices={verts} edges={edges} limits={limits} order#{choices}: {msg}",
